@@ -217,7 +217,7 @@ func (vm *Thread) callBytecodePromise(promise *Promise) {
 	vm.bytecode = generator.Bytecode
 	vm.fp = vm.sp
 	vm.ip = generator.ip
-	vm.localCount = generator.Bytecode.parameterCount + 1
+	vm.localCount = generator.localCount
 	vm.upvalues = generator.upvalues
 
 	baseStack := &generator.stack[0]
@@ -236,6 +236,7 @@ func (vm *Thread) callBytecodePromise(promise *Promise) {
 		stackCopy := make([]value.Value, len(stack))
 		copy(stackCopy, stack)
 		generator.stack = stackCopy
+		generator.localCount = vm.localCount
 		generator.ip = vm.ip
 
 		vm.restoreLastFrame()
@@ -249,7 +250,7 @@ func (vm *Thread) CallGeneratorNext(generator *Generator) (value.Value, value.Va
 	vm.bytecode = generator.Bytecode
 	vm.fp = vm.sp
 	vm.ip = generator.ip
-	vm.localCount = generator.Bytecode.parameterCount + 1
+	vm.localCount = generator.localCount
 	vm.upvalues = generator.upvalues
 
 	baseStack := &generator.stack[0]
@@ -266,6 +267,7 @@ func (vm *Thread) CallGeneratorNext(generator *Generator) (value.Value, value.Va
 	stackCopy := make([]value.Value, len(stack))
 	copy(stackCopy, stack)
 	generator.stack = stackCopy
+	generator.localCount = vm.localCount
 	generator.ip = vm.ip
 
 	if vm.state == errorState {
